@@ -44,6 +44,7 @@ type Program struct {
 	canonField     map[*types.Var]string
 	canonObj       map[types.Object]string
 	lexer          map[*ast.FuncDecl]bool
+	reach          map[*types.Func]bool
 	funcOf         map[*ast.FuncDecl]*packages.Package
 	ssa            *ssaProgram
 	sums           *Summaries
